@@ -255,7 +255,9 @@ def _leaf_values(ns, case):
         for f in tree["fields"]:
             if exposed(f):
                 v = getattr(obj, f["name"])
-                out[".".join(path + [f["name"]])] = None if v is None else str(v)
+                # text as `%(default)s` / str() gives it, plus the Python type (7 vs "7" vs 7.0 vs True must stay apart)
+                out[".".join(path + [f["name"]])] = [None if v is None else str(v), type(v).__name__,
+                                                     [type(x).__name__ for x in v] if isinstance(v, (list, tuple)) else None]
         for kn, sub in tree["kids"]:
             rec(getattr(obj, kn), path + [kn], sub)
 
